@@ -582,6 +582,9 @@ func exec(op string) (res string) {
 		return childExec(op)
 	case "senderr":
 		return execSenderr(w[1], w[2:])
+	case "negom":
+		// a real Session with reader goroutines: in the worker child like negos
+		return childExec(op)
 	case "held":
 		return execHeld(w[1], w[2:])
 	case "flight":
@@ -964,6 +967,16 @@ func main() {
 	}
 	for i := 0; i < nNegos; i++ {
 		op, cls := genNegos(r)
+		out.Case(op, exec(op), cls, true)
+	}
+
+	// 000a. negotiation per connection across the hosts of one session (hosts.go; worker child)
+	nNegom := 40 * mult
+	if nNegom > 240 {
+		nNegom = 240
+	}
+	for i := 0; i < nNegom; i++ {
+		op, cls := genNegom(r)
 		out.Case(op, exec(op), cls, true)
 	}
 
